@@ -9,6 +9,8 @@ use std::collections::HashSet;
 
 pub mod selftest;
 pub mod c01;
+pub mod c02;
+pub mod e1;
 
 pub fn variant() -> &'static str {
     if cfg!(feature = "inproc") {
@@ -224,6 +226,7 @@ pub fn run(id: &str, tier: Tier, rest: &[String]) -> i32 {
     let part = rest.iter().any(|a| a == "--part");
     match id {
         "C01" => c01::run(tier, part),
+        "C02" => c02::run(tier, part),
         _ => {
             eprintln!("unknown property {}", id);
             2
@@ -241,8 +244,11 @@ pub fn replay(file: &str) -> i32 {
         return 2;
     };
     let prop = doc["property"].as_str().unwrap_or("");
+    let tier = if doc["tier"] == "thorough" { Tier::Thorough } else { Tier::Quick };
+    let _ = tier;
     match prop {
         "C01" => c01::replay(&doc["replay"]),
+        "C02" => c02::replay(tier, &doc["replay"]),
         _ => {
             eprintln!("no replay handler for {}", prop);
             2
